@@ -15,8 +15,8 @@
    static rule at applicable positions of accepted programs, with the three
    oracles (Parse rejects with located errors; a recording Platform sees zero
    calls from Evaluator.Run; the `evy run` binary prints nothing on stdout,
-   something on stderr, exits non-zero).  It FAILS for stray text after `end`
-   (finding end-garbage-accepted). *)
+   something on stderr, exits non-zero).  (Stray text after `end` was accepted until
+   /repo 47e7cf4; the harness reports key end-garbage-accepted should it return.) *)
 From Coq Require Import List ZArith.
 From EvyV Require Import RunModel RunModelProofs.
 Import ListNotations.
